@@ -148,7 +148,7 @@ func checkC01(w *World) {
 			return
 		}
 		called := map[*ssa.Function]bool{}
-		for _, fn := range w.handlerClosure(h.Fn) {
+		for _, fn := range w.handlerClosureH(h) {
 			allInstrs(fn, func(in ssa.Instruction) {
 				if c, ok := in.(*ssa.Call); ok {
 					for _, sel := range selectorsApplied(c, ef) {
@@ -270,7 +270,7 @@ func checkC01(w *World) {
 		cases := map[string]bool{}
 		var selCalls []*ssa.Call
 		stepFn := h.Fn
-		for _, g := range w.handlerClosure(h.Fn) {
+		for _, g := range w.handlerClosureH(h) {
 			allInstrs(g, func(in ssa.Instruction) {
 				if c, ok := in.(*ssa.Call); ok {
 					for _, sel := range selectorsApplied(c, ef) {
